@@ -228,3 +228,27 @@ def run_rateconv(sc):
         if ("S", n) in pos and pos[("S", n)] != pos[("F", (n + 1) * ratio - 1)] + 1:
             raise RuntimeError("clocks of the rate-converter bench are not phase aligned as intended")
     return dict(cfg=cfg, lines=[r[2] for r in recs])
+
+
+def rateconv_lock_lines(cfg, lines):
+    """Re-code the per-cycle records for T_RateConvLock.tla (lock-step against D_RateConv): every distinct phase record is
+    numbered injectively, 0 = the all-zero (reset) record."""
+    ND = ["address", "bank", "cas_n", "cs_n", "ras_n", "we_n", "cke", "odt", "reset_n", "act_n", "wrdata_en", "rddata_en"]
+    r = cfg["ratio"]
+    ccodes, wcodes = {tuple([0] * len(ND)): 0}, {(0, 0): 0}
+
+    def code(tab, key):
+        if key not in tab:
+            tab[key] = len(tab)
+        return tab[key]
+    out = [dict(k="NEW", P=cfg["P"], ratio=r, wd=cfg["wd"], rd=cfg["rd"])]
+    for o in lines:
+        if o["k"] == "F":
+            out.append(dict(k="F", cmd=[code(ccodes, tuple(ph[f] for f in ND)) for ph in o["ph"]],
+                            wr=[[code(wcodes, (ph["wrdata"][i], ph["wrdata_mask"][i])) for i in range(r)] for ph in o["ph"]],
+                            fin=[dict(d=ph["rddata"], v=ph["rddata_valid"]) for ph in o["ph"]]))
+        else:
+            out.append(dict(k="S", cmd=[code(ccodes, tuple(ph[f] for f in ND)) for ph in o["ph"]],
+                            wr=[code(wcodes, (ph["wrdata"], ph["wrdata_mask"])) for ph in o["ph"]],
+                            rd=[dict(d=ph["rddata"], v=ph["rddata_valid"]) for ph in o["ph"]]))
+    return out
